@@ -164,6 +164,9 @@ def run_reader(wire: bytes, cfg: dict, tr: dict, keep_objs=False, use_read=False
             kw["errorhandler"] = handler
     use_read = use_read or cfg.get("drive") == "read"
     rereads = int(tr.get("rereads", 0)) if tr.get("redrive_all") else 0
+    writes = set(cfg.get("writes") or ())
+    if writes:
+        use_read = True
     max_items = len(wire) + MAX_ITEMS_SLACK
     stream_obj = getattr(transport, "stream", transport)
     core.VirtualClock.source = transport if hasattr(transport, "now") else None
@@ -216,6 +219,9 @@ def run_reader(wire: bytes, cfg: dict, tr: dict, keep_objs=False, use_read=False
                 if keep_objs:
                     out.objs.append(parsed)
                 n += 1
+                if n in writes and hasattr(ubr.datastream, "write"):
+                    # the application sends a poll request between two reads (what arrives must not depend on it)
+                    ubr.datastream.write(b"\xb5\x62\x0a\x04\x00\x00\x0e\x34")
                 if n > max_items:
                     raise SimBudgetExceeded(f"more than {max_items} items delivered")
         elif cfg.get("resume_after_raise"):
